@@ -139,6 +139,8 @@ ServiceLines(fam) ==
   THEN {<<"NickServ", "JOIN", <<"#a">>>>, <<"NickServ", "PART", <<"#a">>>>, <<"NickServ", "KICK", <<"#a", "bob", "x">>>>,
         <<"NickServ", "MODE", <<"#a", "+o", "bob">>>>, <<"NickServ", "MODE", <<"#a", "+i">>>>,
         <<"NickServ", "KILL", <<"bob", "x">>>>, <<"NickServ", "SVSNICK", <<"bob", "zed", "1">>>>,
+        (* another spelling of the target's own nickname, and a nickname another session owns (refused) *)
+        <<"NickServ", "SVSNICK", <<"bob", "BOB", "1">>>>, <<"NickServ", "SVSNICK", <<"bob", "alice", "1">>>>,
         <<"NickServ", "SVSJOIN", <<"bob", "#b">>>>, <<"NickServ", "SVSPART", <<"bob", "#a">>>>,
         <<"NickServ", "PRIVMSG", <<"#a", "hello">>>>, <<"NickServ", "PRIVMSG", <<"alice", "hello">>>>,
         <<"NickServ", "INVITE", <<"carol", "#a">>>>, <<"NickServ", "SVSHOLD", <<"dave", "5", "held">>>>,
@@ -158,8 +160,7 @@ Alphabet(s, k) ==
   \cup {IF l[1] = "" THEN [Line(id, ts, s.ss[x].id, l[2], l[3]) EXCEPT !.hrid = NickIdx[l[3][1]]]
         ELSE SLine(id, ts, s.ss[x].id, l[1], l[2], l[3]) :
           x \in LinksOf(s),
-          (* SVSNICK re-keys unconditionally: C14 only covers SVSNICK onto a FREE nickname (services ask first) *)
-          l \in {q \in ServiceLines(Families) : q[2] = "SVSNICK" => ~Has(s.nk, LcN(q[3][2]))}}
+          l \in ServiceLines(Families)}
   \cup (IF "entry" \in Families
         THEN {Create(id, ts)} \cup {Delete(id, ts, s.ss[x].id) : x \in Clients(s)} \cup {Mod(id, ts, s.ss[x].id) : x \in Clients(s)}
              \cup {Config(id, ts, "B", [CfgB EXCEPT !.rev = s.cfg.rev + 1])}
